@@ -202,7 +202,9 @@ static void collect_vars(const z3::expr &e, std::set<unsigned> &seen, std::set<s
   if (e.is_app()) for (unsigned i = 0; i < e.num_args(); i++) collect_vars(e.arg(i), seen, out);
 }
 // after constraint c was added: inputs occurring in c that are now forced to a single value become constants
+bool opt_pin = true;
 static void trypin(State &S, const z3::expr &c) {
+  if (!opt_pin) return;
   std::set<unsigned> seen; std::set<std::string> vars;
   collect_vars(c, seen, vars);
   for (size_t i = 0; i < S.inputs.size(); i++) {
